@@ -494,6 +494,11 @@ def c11(res, rng, tier):
             b"cos.path\njoin\n.", b"cos\npath.join\n.", b"ca\nb\n.", b"c\na.b\n.", b"ca.b\n\n.",
             b"\x80\x04\x8c\x07os.path\x8c\x04join\x93.", b"\x80\x04\x8c\x02os\x8c\x09path.join\x93.",
             b"cos.path\njoin\n)R.", b"cos\npath.join\n)R.", b"Pos.path join\n.", b"Pos.path\n.", b"S'os.path'\n."]
+    # FRAME announcements that do not match what follows (the decoder ignores the number): shorter, longer than the
+    # pickle, longer than the read buffer, absurd - alone and followed by other pickles the result is the same
+    for flen in (0, 1, 3, 4, 5, 50, 4000, 4096, 5000, 2**32, 2**63 - 1, 2**64 - 1):
+        hand.append(b"\x80\x04\x95" + struct.pack("<Q", flen) + b"K\x01.")
+    hand.append(b"\x80\x04\x95" + struct.pack("<Q", 9) + b"]\x94(K\x01K\x02e\x95" + struct.pack("<Q", 100) + b".")
     # text lines longer than bufio's 4096-byte buffer (readLine's slow path keeps per-Decoder state)
     longs = [b"S'" + b"a" * 5000 + b"'\n.", b"V" + b"b" * 6000 + b"\n.", b"I" + b"1" * 4200 + b"\n.", b"L" + b"7" * 4300 + b"L\n.",
              b"c" + b"m" * 4100 + b"\n" + b"n" * 4200 + b"\n.", b"P" + b"p" * 5000 + b"\n.", b"\x80\x02V" + b"\\u00e9" * 900 + b"\n."]
@@ -521,8 +526,11 @@ def c11(res, rng, tier):
     slines = ["dec %s %s 0 %s" % (pd, su, p.hex()) for (p, pd, su) in skeys]
     impl = C.implrun(lines + slines)
     model = C.modelrun(lines + slines)
-    for k, o in zip(skeys, impl[len(lines):]):
+    for k, o, mo in zip(skeys, impl[len(lines):], model[len(lines):]):
         singles[k] = parts(o)
+        if "#staleappend" not in mo and strip_model(mo) != o:
+            res.violation("correspondence: model and implementation differ on a pickle decoded alone",
+                          {"kind": "correspondence", "input_hex": k[0].hex(), "pydict": k[1], "strict": k[2], "model": mo[:500], "impl": o[:500]}, found_input=False)
     nontriv = 0
     mism = 0
     for i in range(len(lines)):
